@@ -17,17 +17,21 @@ PROPERTY = "C12"
 LEVEL = "exploration"
 ENGINE = "ecu-groundtruth"
 TECHNIQUE = (
-    "record/replay differential monitor: a real ECU client with a real DBHandler records request histories against ECU models (real "
-    "RandomUDSServer in-process, scripted ECUs) while the transport logs the raw reply bytes; the real DBUDSServer built from that database "
+    "record/replay differential monitor: a real ECU client (gallia's ECU class or a vendor subclass of it with one more state attribute) with a real DBHandler "
+    "records request histories against ECU models (real RandomUDSServer in-process, scripted ECUs; some of them ignore the suppress bit) while the transport logs the raw reply bytes; the real DBUDSServer built from that database "
     "as commands/script/vecu.py builds it is then fed the same requests through UDSServerTransport.handle_request and compared reply by "
     "reply and state by state with the recording"
 )
 LEVEL_TEXT = (
     "Exploration: generated histories of 5..60 requests (session changes, seed/key pairs with fresh seeds, resets, reads/writes/routines, "
     "tester present, DTC services, suppressed requests, arbitrary bytes) against RandomUDSServer models (seeds x parameter sets) and "
-    "scripted ECUs (spontaneous session fallback, malformed, mismatching and missing replies); databases with one recording (no selector, "
+    "scripted ECUs (spontaneous session fallback, malformed, mismatching and missing replies); of every kind of ECU some ignore the suppressPosRspMsgIndicationBit for some or all "
+    "services and send the positive reply all the same (such requests are then also asked outside the default state and for session changes / resets / keys); about a third of the "
+    "recordings is made by a vendor subclass of ECU (as load_ecu hands out) that tracks session and security level as the stock class does and keeps one more attribute in its state "
+    "object (logged before or after the other two; constant or changing with the writes / routines of the history); databases with one recording (no selector, "
     "name, properties) and with two or three recordings written one after the other or interleaved (each by a DBHandler / run_meta of its own: different "
-    "target urls; the same url recorded twice; address rows left by a discovery run and labelled with ECU names before the recordings start, "
+    "target urls; the same url recorded twice; one ECU name referenced by two or three address rows - the same ECU recorded over two urls, or further addresses of a recorded ECU that a "
+    "discovery run found before or after the recordings and nobody recorded over - so that the replayed sequence belongs to the first, a middle or the last address row of its name; address rows left by a discovery run and labelled with ECU names before the recordings start, "
     "plus addresses of ECUs never recorded), selected by ECU name (always when the file holds several recordings), by integer/null "
     "properties, by string properties or both; family 'update': one ECU (one name, one url) recorded with two software generations (two runs whose properties_pre differ in "
     "sw_version, in the nullable variant or in both, same state machine, other reply bytes, recorded in either order), optionally next to another ECU that carries the property "
@@ -43,7 +47,8 @@ LEVEL_NOTE = (
 )
 RULE = (
     "cases = (ECU model or script [software generation], history seed, database layout incl. the class of ECU names, selector); one case = one record/replay pair; non-trivial = the recording "
-    "leaves the default state or repeats a request with another answer; distinct = distinct (history seed, layout, selector); "
+    "leaves the default state or repeats a request with another answer; the recording client (stock / vendor subclass), the ECU's attitude to the suppress bit and the number of address rows per ECU name "
+    "are drawn per recording / per file from the history seed, not extra cases; distinct = distinct (history seed, layout, selector); "
     "distinct_traces = distinct (request kind, reply kind, client state) sequences; evaluations = replayed steps compared. After the first "
     "difference of a pair the rest of that replay is not judged (it is a consequence). A replay difference under selection by name is keyed replay/wrong-recording-selected/... "
     "when the file shows that a scan run points to the address row of another url than the one it was recorded against."
@@ -55,12 +60,17 @@ ASSUMPTIONS = [
     "family 'update': the two runs of one ECU name answer differently (software generation) and differ in properties_pre; such a run is only replayed with a selector that singles it out: "
     "name AND properties, or the properties alone if no other ECU of the file carries them (ECU name 'or' properties in the statement is read inclusively: commands/script/vecu.py takes both options "
     "at once); the name alone is not used there, and another ECU of that file is replayed by name, by name AND properties, and by properties alone only if they are its own",
+    "an ECU name may be referenced by several address rows (docs/uds/virtual_ecu.md: 'referenced in one or more addresses'); selected by that name, every sequence recorded over any of them is replayed; "
+    "two sequences recorded over two addresses of one name come from one ECU whose answers are a function of (session, security level, request)",
+    "a vendor subclass of ECU that inherits update_state tracks session and security level identically to the replaying server (the presupposition of the statement); its additional state attribute is "
+    "client-side bookkeeping the ECU's answers do not depend on; the state compared after every step is (session, security level). A state column re-written by other tools after the recording is not exercised",
+    "an ECU that ignores the suppress bit answers the request as it would answer it without the bit (RandomUDSServer models: the bit is cleared before the model sees the request)",
     "an ECU name selects the ECU whose ecu.name is exactly that text (same characters, same case); '_' and '%' in a name are ordinary characters",
     "ecu rows and address.ecu are written by the harness with SQL (gallia has no writer for them); properties_pre is written by DBHandler.insert_scan_run_properties_pre",
     "address rows that exist before a recording starts come from gallia's own writers: DBHandler.insert_discovery_result of a discovery run in the same file, or an earlier recording of the same url",
     "every await on DBHandler / DBUDSServer has a 60 s wall-clock guard (such a step takes milliseconds). A DBHandler step of a recording that raises or does not return is reported as a "
     "violation (record/...: the recording is not in the database, so it cannot be replayed) and that recording is not replayed; only connect / insert_run_meta failing on a fresh file is a harness error",
-    "'clean' histories never provoke silence while the client is outside the default state and never suppress a session change or reset; 'any' histories do",
+    "'clean' histories never provoke silence while the client is outside the default state and never suppress a session change or reset (asking an ECU that ignores the bit is not suppressing); 'any' histories do",
 ]
 EXHAUSTIVE = {"quick": False, "thorough": False}
 EXHAUSTIVE_NOTE = ""
@@ -123,6 +133,20 @@ def required_reach(tier: str) -> dict[str, int]:
         **{f"replay-by-name.other-ecu-name.{r}{sfx}": n * k
            for r in ("differs-only-in-case", "equal-but-for-underscores", "equal-but-for-percent-signs")
            for sfx, n in (("", 8), (".and-answers-differently", 6), (".and-answers-differently.and-was-recorded-first-or-interleaved", 4))},
+        # requests with the suppress bit set that the recorded ECU answered positively all the same (ECUs that ignore the bit, for some or all services)
+        "hist.suppress-bit-set.answered-positively": 60 * k, "hist.suppress-bit-set.answered-positively.state-relevant-reply": 15 * k,
+        "hist.suppress-bit-set.answered-positively.outside-default-state": 15 * k, "replay.ecu-ignores-suppress-bit.and-history-has-such-a-reply": 30 * k,
+        # recordings made by a vendor subclass of ECU whose state object has one more attribute (logged before or after session / security level)
+        "client.stock-ecu-class": 100 * k, "client.vendor-ecu-class.extra-state-attribute": 100 * k,
+        "client.vendor-ecu-class.extra-state-attribute.logged-first": 30 * k, "client.vendor-ecu-class.extra-state-attribute.logged-last": 30 * k,
+        "client.vendor-ecu-class.extra-state-attribute.changes-during-the-recording": 20 * k,
+        "replay.recorded-by-vendor-ecu-class": 100 * k, "replay.recorded-by-vendor-ecu-class.non-trivial": 60 * k,
+        # one ECU name referenced by several address rows; the replayed sequence was recorded over the first / a later one of them
+        "db.ecu-name-referenced-by-several-address-rows": 30 * k, "replay-by-name.ecu-name-referenced-by-several-address-rows": 40 * k,
+        "replay-by-name.ecu-name-referenced-by-several-address-rows.recorded-over-the-first-of-them": 12 * k,
+        "replay-by-name.ecu-name-referenced-by-several-address-rows.recorded-over-a-later-one": 12 * k,
+        "replay-by-name.ecu-name-referenced-by-several-address-rows.other-address-recorded-over-too": 10 * k,
+        "replay-by-name.ecu-name-referenced-by-several-address-rows.other-addresses-never-recorded-over": 10 * k,
         "scripted.fallback": 10 * k, "scripted.malformed-reply": 10 * k, "scripted.mismatching-reply": 10 * k, "#model:": 40,
     }
 
@@ -131,10 +155,11 @@ def required_reach(tier: str) -> dict[str, int]:
 class Gen:
     """history generator: reads the ECU model's offered services when there is one, the wire for outstanding seeds"""
 
-    def __init__(self, rng: random.Random, clean: bool, pure: bool = False, pool: random.Random | None = None):
+    def __init__(self, rng: random.Random, clean: bool, pure: bool = False, pool: random.Random | None = None, answers_anyway: frozenset[int] = frozenset()):
         self.rng = rng
         self.clean = clean
         self.pure = pure  # never ask for suppression: the ECU's state stays what the client sees
+        self.answers_anyway = answers_anyway  # services for which this ECU ignores the suppress bit: asking for suppression never yields silence there
         pool = pool or rng
         self.dids = [pool.choice([0xF190, 0xF18C, 0x0100, 0x1234, pool.randrange(65536)]) for _ in range(5)]
         self.rids = [pool.randrange(65536) for _ in range(2)]
@@ -149,23 +174,29 @@ class Gen:
     def next(self, offered: dict[int, list[int] | None] | None, client_default: bool) -> bytes:
         rng = self.rng
         may_silence = ((not self.clean) or client_default) and not self.pure
-        spr = lambda p: 0x80 if (may_silence and rng.random() < p) else 0  # noqa: E731
+        anyway = self.answers_anyway
+
+        def spr(p: float, sid: int = -1, hidden_state_change: bool = False) -> int:
+            # hidden_state_change: a suppressed positive reply to this request would change the ECU's state behind the client's back
+            ok = sid in anyway or (may_silence and not (hidden_state_change and self.clean))
+            return 0x80 if (ok and rng.random() < (max(p, 0.3) if sid in anyway else p)) else 0
+
         k = rng.random()
         if self.last_seed is not None and rng.random() < 0.75:
             lvl, seed = self.last_seed
             key = seed if rng.random() < 0.8 else seed + b"\x00"
-            return bytes([0x27, (lvl + 1) | spr(0.08)]) + key
+            return bytes([0x27, (lvl + 1) | spr(0.08, 0x27)]) + key
         if k < 0.18:
             tg = (offered or {}).get(0x10) or []
             s = rng.choice(tg) if tg and rng.random() < 0.8 else rng.choice([1, 2, 3, 0x40, rng.randrange(1, 128)])
-            return bytes([0x10, s | (0 if self.clean else spr(0.12))])
+            return bytes([0x10, s | spr(0.12, 0x10, True)])
         if k < 0.30:
             sa = [x for x in ((offered or {}).get(0x27) or []) if x & 1]
             lvl = rng.choice(sa) if sa and rng.random() < 0.85 else rng.choice([1, 3, 0x11])
             return bytes([0x27, lvl])
         if k < 0.35:
             sf = rng.choice(((offered or {}).get(0x11) or [1]) + [1])
-            return bytes([0x11, sf | (0 if self.clean else spr(0.15))])
+            return bytes([0x11, sf | spr(0.15, 0x11, True)])
         if k < 0.46:
             return b"\x22\xf1\x86"
         if k < 0.60:
@@ -173,9 +204,9 @@ class Gen:
         if k < 0.68:
             return b"\x2e" + rng.choice(self.dids).to_bytes(2, "big") + rng.choice([b"\x00", b"\x01\x02", rng.randbytes(3)])
         if k < 0.76:
-            return bytes([0x31, rng.choice([1, 2, 3]) | spr(0.1)]) + rng.choice(self.rids).to_bytes(2, "big") + rng.choice([b"", b"\x01"])
+            return bytes([0x31, rng.choice([1, 2, 3]) | spr(0.1, 0x31)]) + rng.choice(self.rids).to_bytes(2, "big") + rng.choice([b"", b"\x01"])
         if k < 0.81:
-            return bytes([0x3E, spr(0.5)])
+            return bytes([0x3E, spr(0.5, 0x3E)])
         if k < 0.85:
             return b"\x2f" + rng.choice(self.dids).to_bytes(2, "big") + bytes([rng.choice([0, 1, 2, 3])]) + rng.choice([b"", b"\xff"])
         if k < 0.89:
@@ -192,9 +223,10 @@ class Gen:
 class ScriptedECU:
     """An ECU that is not gallia's virtual ECU: session timer fallback, malformed / mismatching / missing replies."""
 
-    def __init__(self, rng: random.Random, flavour: str, dids: list[int], sw: int = 0):
+    def __init__(self, rng: random.Random, flavour: str, dids: list[int], sw: int = 0, ignores: frozenset[int] = frozenset()):
         self.rng = rng
         self.flavour = flavour
+        self.ignores = ignores  # services whose suppressPosRspMsgIndicationBit this ECU ignores: it sends the positive reply all the same
         self.sw = sw  # software generation ('pure' only): same state machine, other answers (0 = the answers below as they stand)
         self.session = 1
         self.level: int | None = None
@@ -273,7 +305,80 @@ class ScriptedECU:
             pos = bytes([0x71, q[1] & 0x7F]) + q[2:4] + bytes([self.session]) + (bytes([self.sw]) if self.sw else b"")
         else:
             return bytes([0x7F, sid, 0x11])
-        return None if sup else pos
+        return None if (sup and sid not in self.ignores) else pos
+
+
+SUPPRESSIBLE = [0x10, 0x11, 0x27, 0x31, 0x3E]
+
+
+def ignored_suppress_bits(ecu_seed: str, p: float) -> frozenset[int]:
+    """the services for which the ECU with this seed sends its positive reply although the request asked to suppress it (a property of the ECU,
+    so both recordings of one ECU get the same set); empty for most ECUs"""
+    r = random.Random(f"{ecu_seed}/suppress-bit")
+    if r.random() >= p:
+        return frozenset()
+    if r.random() < 0.4:
+        return frozenset(SUPPRESSIBLE)
+    return frozenset(r.sample(SUPPRESSIBLE, r.randint(1, 3)))
+
+
+def has_suppress_bit(q: bytes) -> bool:
+    return q[0] in iso.HAS_SUBFUNCTION and len(q) >= 2 and bool(q[1] & 0x80)
+
+
+# ---- recording clients ---------------------------------------------------------------------------------
+# gallia's ECU class is made to be subclassed ("Vendor specific implementations can be derived from this class", loaded by load_ecu(oem)).
+# The vendor client below tracks session and security level exactly as the stock class does (it inherits update_state) and keeps one more
+# attribute in its state object, which DBHandler.insert_scan_result logs along with the other two.
+VENDOR_ATTRS = ["boot_mode", "vendor_mode", "programming_counter", "last_routine", "a_flag", "zz_unlocked_by"]
+
+
+def vendor_client_kind(seed: str, p: float = 0.35) -> dict[str, Any] | None:
+    r = random.Random(f"{seed}/client")
+    if r.random() >= p:
+        return None
+    return {"attribute": r.choice(VENDOR_ATTRS), "logged": r.choice(["first", "last"]), "changes": r.random() < 0.5,
+            "initial": r.choice([0, None, False, "app", 7])}
+
+
+def make_client(transport: Any, handler: Any, vendor: dict[str, Any] | None) -> Any:
+    if vendor is None:
+        return dh.make_ecu(transport, handler, 0)
+    from gallia.services.uds.core import service
+    from gallia.services.uds.ecu import ECU, ECUState
+
+    attr, first, changes, initial = vendor["attribute"], vendor["logged"] == "first", vendor["changes"], vendor["initial"]
+
+    class VendorECUState(ECUState):
+        def __init__(self) -> None:
+            if first:
+                setattr(self, attr, initial)  # __dict__ order = order in the logged JSON object
+            super().__init__()
+            setattr(self, attr, initial)
+
+        def reset(self) -> None:
+            super().reset()
+            setattr(self, attr, initial)
+
+    class VendorECU(ECU):
+        OEM = "vf-vendor"
+
+        def __init__(self, *a: Any, **kw: Any) -> None:
+            super().__init__(*a, **kw)
+            self.state = VendorECUState()
+
+        async def update_state(self, request: Any, response: Any) -> None:
+            await super().update_state(request, response)
+            # bookkeeping of the client only (the ECU's answers do not depend on it): the last identifier written / routine run in this session
+            if changes and not isinstance(response, service.NegativeResponse):
+                q = request.pdu
+                if q[0] in (0x2E, 0x31) and len(q) >= 4:
+                    setattr(self.state, attr, int.from_bytes(q[2:4] if q[0] == 0x31 else q[1:3], "big"))
+
+    ecu = VendorECU(transport, timeout=0.05, max_retry=0)
+    ecu.retry_wait = 0.0
+    ecu.db_handler = handler
+    return ecu
 
 
 # ---- recording ----------------------------------------------------------------------------------------
@@ -291,7 +396,9 @@ class Recording:
         self.name, self.target, self.props, self.model_id = name, target, props, model_id
         self.requests: list[bytes] = []
         self.replies: list[bytes | None] = []
-        self.client_states: list[dict[str, Any]] = []  # after each step
+        self.client_states: list[dict[str, Any]] = []  # after each step: session and security level as the recording client tracked them
+        self.client: dict[str, Any] | None = None  # None = gallia's ECU class; else the vendor subclass (one more state attribute)
+        self.ignores: frozenset[int] = frozenset()  # services for which the recorded ECU ignores the suppress bit
         self.errors: list[str | None] = []
         self.lost: list[str] = []
         self.scan_run: int | None = None
@@ -312,7 +419,10 @@ class Recorder:
     def __init__(self, rec: Recording, path: Path, hseed: str, family: str, ecu_kind: tuple[Any, ...], clean: bool, length: int, pool_seed: str | None = None):
         self.rec, self.path, self.family, self.ecu_kind, self.length = rec, path, family, ecu_kind, length
         self.rng = random.Random(hseed)
-        self.gen = Gen(self.rng, clean, pure=ecu_kind[0] == "script" and ecu_kind[2] == "pure", pool=random.Random(pool_seed) if pool_seed else None)
+        pure = ecu_kind[0] == "script" and ecu_kind[2] == "pure"
+        rec.ignores = ignored_suppress_bits(str(ecu_kind[1]), 0.3 if ecu_kind[0] == "rng" else 0.4 if pure else 0.5)
+        rec.client = vendor_client_kind(f"{hseed}|{rec.target}|{rec.model_id}")
+        self.gen = Gen(self.rng, clean, pure=pure, pool=random.Random(pool_seed) if pool_seed else None, answers_anyway=rec.ignores)
         self.handler: Any = None
         self.ecu: Any = None
         self.tr: Any = None
@@ -351,15 +461,20 @@ class Recorder:
             self.driver = vecu.Driver(self.ecu_kind[1], vecu.PARAM_SETS[self.ecu_kind[2]], vecu.all_switches())
             await self.driver.setup()
 
+            ignores = self.rec.ignores
+
             async def responder(q: bytes) -> list[bytes]:
+                if q[0] in ignores and has_suppress_bit(q):
+                    q = bytes([q[0], q[1] & 0x7F]) + q[2:]  # this ECU does not look at the bit
                 r, _ = await self.driver.transport.handle_request(q)
                 return [r] if r is not None else []
 
             self.tr = dh.ResponderTransport(responder)
         else:
-            self.script = ScriptedECU(random.Random(f"{self.ecu_kind[1]}"), self.ecu_kind[2], self.gen.dids, sw=self.ecu_kind[3] if len(self.ecu_kind) > 3 else 0)
+            self.script = ScriptedECU(random.Random(f"{self.ecu_kind[1]}"), self.ecu_kind[2], self.gen.dids, sw=self.ecu_kind[3] if len(self.ecu_kind) > 3 else 0,
+                                      ignores=self.rec.ignores)
             self.tr = dh.ResponderTransport(self.script)
-        self.ecu = dh.make_ecu(self.tr, self.handler, 0)
+        self.ecu = make_client(self.tr, self.handler, self.rec.client)
 
     async def step(self) -> bool:
         if self.rec.failed is not None or len(self.rec.requests) >= self.length:
@@ -388,7 +503,7 @@ class Recorder:
         r.requests.append(q)
         r.replies.append(reply)
         r.errors.append(err)
-        r.client_states.append(dict(st.__dict__))
+        r.client_states.append({"session": st.session, "security_access_level": st.security_access_level})
         return True
 
     async def finish(self, catch: dh.Catcher) -> None:
@@ -465,6 +580,7 @@ def judge(ctx: Any, rec: Recording, rows: list[dict[str, Any]], out: list[tuple[
     def witness(i: int, extra: dict[str, Any]) -> dict[str, Any]:
         lo = max(0, i - 40)
         return {**case, "selector": selector, "ecu_name": rec.name, "properties": rec.props, "step": i, "first_shown_step": lo,
+                "recording_client": rec.client or "gallia.services.uds.ecu.ECU", "ecu_ignores_suppress_bit_of_services": sorted(rec.ignores),
                 "history": [[q, r, f"{s['session']:#x}/{s['security_access_level']}"] for q, r, s in zip(rec.requests[lo : i + 1], rec.replies[lo : i + 1], rec.client_states[lo : i + 1])],
                 **extra}
 
@@ -554,8 +670,15 @@ def survey(ctx: Any, rec: Recording) -> bool:
             ctx.reach("hist.recorded-silence")
             if prev["session"] != 1 or prev["security_access_level"] is not None:
                 ctx.reach("hist.recorded-silence-outside-default-state")
-            if q[0] in iso.HAS_SUBFUNCTION and len(q) >= 2 and q[1] & 0x80:
+            if has_suppress_bit(q):
                 ctx.reach("hist.suppressed-request")
+        elif has_suppress_bit(q) and r[0] != 0x7F and k not in ("malformed-reply", "mismatching-reply"):
+            # the request asked to suppress the positive reply and the recorded ECU sent it all the same: a row with reply bytes like any other
+            ctx.reach("hist.suppress-bit-set.answered-positively")
+            if k in ("session-change", "reset", "security-access"):
+                ctx.reach("hist.suppress-bit-set.answered-positively.state-relevant-reply")
+            if prev["session"] != 1 or prev["security_access_level"] is not None:
+                ctx.reach("hist.suppress-bit-set.answered-positively.outside-default-state")
         if q in seen and r not in seen[q]:
             other_answer = True
             ctx.reach("hist.repeated-request-other-answer")
@@ -571,6 +694,15 @@ def survey(ctx: Any, rec: Recording) -> bool:
         prev = s
     ctx.trace(tuple(trace))
     return left_default or other_answer
+
+
+def _loads(text: Any) -> Any:
+    import json
+
+    try:
+        return json.loads(text)
+    except (TypeError, ValueError):
+        return None
 
 
 def int_props(rec: Recording) -> dict[str, Any]:
@@ -681,6 +813,10 @@ async def one_database(ctx: Any, family: str, hseed: str, path: Path, catch: dh.
     ecu_ids = sorted({0 if same_ecu or (update and j < 2) else j for j in range(nrec)})
     name_class = rng3.choice(NAME_CLASSES)
     names = dict(zip(ecu_ids, ecu_names(rng3, name_class, len(ecu_ids), zlib.crc32(hseed.encode()) % 1000)))
+    # fourth layout stream: ECU names referenced by more than one address row (docs/uds/virtual_ecu.md: the name is "referenced in one or more addresses"):
+    # the ECU was reached over two target urls (two recordings), or a second address of it is known (discovery run) and was never recorded over
+    rng4 = random.Random(hseed + "/addresses")
+    two_urls = (same_ecu and rng4.random() < 0.5) or (update and rng4.random() < 0.3)
     for j in range(nrec):
         if update:
             # the same state machine (answers are a function of session, level, request and software generation)
@@ -709,7 +845,7 @@ async def one_database(ctx: Any, family: str, hseed: str, path: Path, catch: dh.
                 props["variant"] = 1
         if update and j == 2 and shares_with is not None:
             props["sw_version"], props["variant"] = recs[shares_with].props["sw_version"], recs[shares_with].props["variant"]
-        rec = Recording(names[jj], f"vf://c12/{hseed}/{jj}", props, model_id)
+        rec = Recording(names[jj], f"vf://c12/{hseed}/{jj}" + ("/second-url" if two_urls and j == 1 else ""), props, model_id)
         recs.append(rec)
         length = rng.choice([5, 8, 60, rng.randint(5, 60), rng.randint(5, 60), rng.randint(20, 60)])
         if same_ecu or update:
@@ -724,14 +860,18 @@ async def one_database(ctx: Any, family: str, hseed: str, path: Path, catch: dh.
     discovery = several and rng2.random() < 0.5  # address rows exist up front and carry their ECU names before any recording
     label_between = (same_ecu or update) and not discovery and not interleaved and rng2.random() < 0.5
     extra_urls = [f"vf://c12/{hseed}/other{k}" for k in range(rng2.choice([0, 0, 1, 2]))] if discovery else []
-    labelled: set[str] = set()
+    # further addresses of recorded ECUs, never recorded over: found by the discovery run up front, or by a discovery run after the recordings
+    alias_urls = [(f"vf://c12/{hseed}/alias{k}", rng4.choice(recs).name) for k in range(rng4.choice([0, 1, 1, 2]))] if discovery else []
+    alias_after = [(f"vf://c12/{hseed}/alias-late", rng4.choice(recs).name)] if several and not discovery and rng4.random() < 0.3 else []
+    labelled: set[tuple[str, str]] = set()
 
     def label(name: str, url: str) -> None:
-        # ECU names: gallia has no writer for the ecu table; a user fills it in with SQL
-        if name in labelled:
+        # ECU names: gallia has no writer for the ecu table; a user fills it in with SQL (one ecu row per name, referenced by one or more address rows)
+        if (name, url) in labelled:
             return
-        labelled.add(name)
-        dh.sql(path, "INSERT INTO ecu(name, oem, manufacturer) VALUES (?, 'default', 'vf')", (name,))
+        if not any(n == name for n, _ in labelled):
+            dh.sql(path, "INSERT INTO ecu(name, oem, manufacturer) VALUES (?, 'default', 'vf')", (name,))
+        labelled.add((name, url))
         dh.sql(path, "UPDATE address SET ecu = (SELECT id FROM ecu WHERE name = ?) WHERE url = ?", (name, url))
 
     def reach_address(rec: Recording) -> None:
@@ -749,11 +889,13 @@ async def one_database(ctx: Any, family: str, hseed: str, path: Path, catch: dh.
     catch.take_lost()
     try:
         if discovery:
-            urls = sorted({r.target for r in recs}) + extra_urls
+            urls = sorted({r.target for r in recs}) + extra_urls + [u for u, _ in alias_urls]
             rng2.shuffle(urls)
             await dh.open_discovery(path, urls, script="vf.c12.discover")
             for rec in recs:
                 label(rec.name, rec.target)
+            for u, nm in alias_urls:
+                label(nm, u)
             for k, u in enumerate(extra_urls):
                 label(f"OTHER-{k}-{zlib.crc32(hseed.encode()) % 1000}", u)
             ctx.reach("db.addresses-from-discovery-run-labelled-up-front")
@@ -783,6 +925,16 @@ async def one_database(ctx: Any, family: str, hseed: str, path: Path, catch: dh.
             await r.abort()
     for rec in recs:
         label(rec.name, rec.target)
+    if alias_after:
+        await dh.open_discovery(path, [u for u, _ in alias_after], script="vf.c12.discover-late")
+        for u, nm in alias_after:
+            label(nm, u)
+    # the address rows each ECU name is referenced by, in address id order (reach counters only)
+    addresses_of: dict[str, list[tuple[int, str, int]]] = {}
+    for aid, url, nm, runs in dh.sql(path, "SELECT a.id, a.url, e.name, (SELECT count(*) FROM scan_run s WHERE s.address = a.id) FROM address a JOIN ecu e ON a.ecu = e.id ORDER BY a.id"):
+        addresses_of.setdefault(nm, []).append((aid, url, runs))
+    if any(len(v) > 1 for v in addresses_of.values()):
+        ctx.reach("db.ecu-name-referenced-by-several-address-rows")
     # where gallia attached the scan runs (diagnosis only; the verdict comes from the replayed bytes)
     by_run = {row[0]: row[1] for row in dh.sql(path, "SELECT s.id, a.url FROM scan_run s LEFT JOIN address a ON s.address = a.id")}
     for rec in recs:
@@ -835,6 +987,16 @@ async def one_database(ctx: Any, family: str, hseed: str, path: Path, catch: dh.
             continue  # nothing (reliable) was recorded: a replay difference would only be a consequence
         rows = dh.read_rows(path, rec.scan_run)
         nontrivial = survey(ctx, rec)
+        if rec.client is None:
+            ctx.reach("client.stock-ecu-class")
+        else:
+            vk = "client.vendor-ecu-class.extra-state-attribute"
+            ctx.reach(vk)
+            ctx.reach(f"{vk}.logged-{rec.client['logged']}")
+            logged = {row["state"] for row in rows}
+            if len({r.get(rec.client["attribute"], "<absent>") if isinstance(r, dict) else "<no object>" for r in map(_loads, logged)}) > 1:
+                ctx.reach(f"{vk}.changes-during-the-recording")
+        answered_anyway = any(has_suppress_bit(q) and r is not None and r[0] == (q[0] + 0x40) & 0xFF for q, r in zip(rec.requests, rec.replies))
         if rec.info.get("fallbacks"):
             ctx.reach("scripted.fallback")
         for q, r in zip(rec.requests, rec.replies):
@@ -845,7 +1007,8 @@ async def one_database(ctx: Any, family: str, hseed: str, path: Path, catch: dh.
                 ctx.reach("scripted.mismatching-reply")
         case = {"family": family, "hseed": hseed, "recordings": nrec, "interleaved": interleaved, "same_ecu_twice": same_ecu, "discovery_run_first": discovery,
                 "recording": j, "model": rec.model_id, "length": len(rec.requests), "nontrivial": nontrivial,
-                "ecu_names_in_file": sorted({o.name for o in recs})}
+                "ecu_names_in_file": sorted({o.name for o in recs}), "target": rec.target,
+                "address_rows_of_this_ecu_name": [[aid, url, f"{runs} scan runs"] for aid, url, runs in addresses_of.get(rec.name, [])]}
         if update:
             case.update({"software_update": True, "update_changed_properties": differs, "other_ecu_has_properties_of_recording": shares_with,
                          "recorded_in_order": [recs.index(r.rec) for r in recorders]})
@@ -881,6 +1044,16 @@ async def one_database(ctx: Any, family: str, hseed: str, path: Path, catch: dh.
         if nrec > 1 and not any(sel in ("name", "name+properties") for sel, _, _ in selectors):
             selectors.append(("name", None, None))  # several recordings in one file: the scan_run -> address -> ecu join is always exercised
         by_name = [sel for sel, _, _ in selectors if sel in ("name", "name+properties")]
+        mine = addresses_of.get(rec.name, [])
+        if by_name and len(mine) > 1 and any(url == rec.target for _, url, _ in mine):
+            # the name stands for several address rows; this sequence was recorded over one of them
+            sit = "replay-by-name.ecu-name-referenced-by-several-address-rows"
+            ctx.reach(sit)
+            ctx.reach(f"{sit}.recorded-over-the-{'first' if mine[0][1] == rec.target else 'last' if mine[-1][1] == rec.target else 'middle'}-of-them")
+            if mine[0][1] != rec.target:
+                ctx.reach(f"{sit}.recorded-over-a-later-one")
+            others_rec = any(url != rec.target and runs > 0 for _, url, runs in mine)
+            ctx.reach(f"{sit}.{'other-address-recorded-over-too' if others_rec else 'other-addresses-never-recorded-over'}")
         if by_name and rec.address_before is not None and rec.address_before["exists"]:
             ctx.reach("replay-by-name.address-row-existed-before-scan-run")
             if rec.address_before["earlier_scan_runs"] > 0:
@@ -909,6 +1082,12 @@ async def one_database(ctx: Any, family: str, hseed: str, path: Path, catch: dh.
             elif sel == "string-properties":
                 props = {"vin": rec.props["vin"]}
             out = await replay_recording(path, name, props, rec.requests)
+            if rec.client is not None:
+                ctx.reach("replay.recorded-by-vendor-ecu-class")
+                if nontrivial:
+                    ctx.reach("replay.recorded-by-vendor-ecu-class.non-trivial")
+            if answered_anyway:
+                ctx.reach("replay.ecu-ignores-suppress-bit.and-history-has-such-a-reply")
             ctx.case((hseed, j, sel, nrec, interleaved), nontrivial=nontrivial, n=0)
             judge(ctx, rec, rows, out, case, sel, [o for o in recs if o is not rec])
         if ctx.rng.random() < 0.03:
